@@ -324,6 +324,22 @@ pub fn inject(ch: &mut Choices, doc: &mut Vec<MTsDef>) -> Option<TsFault> {
             Some(TsFault { label: "implements-non-interface", cell: format!("{:?}", t.kind) })
         }
         11 => {
+            if ch.chance(1, 3) {
+                // interfaces implementing each other in a cycle of length 2 or 3 (each would have to implement itself):
+                // fresh interfaces with equal fields, so that nothing else is wrong
+                let n = 2 + ch.below(2);
+                let names: Vec<String> = (0..n).map(|i| format!("Cyc{}", (b'A' + i as u8) as char)).collect();
+                for i in 0..n {
+                    let mut t = MTypeDef::new(Kind::Interface, &names[i]);
+                    t.fields.push(MField { desc: None, name: "x".into(), args: vec![], ty: MType::named("Int"), directives: vec![] });
+                    // each lists all the others (so no transitive interface is missing except the type itself)
+                    for j in 1..n {
+                        t.implements.push(names[(i + j) % n].clone());
+                    }
+                    doc.push(MTsDef::Type(t));
+                }
+                return Some(TsFault { label: "implements-cycle", cell: format!("length-{n}") });
+            }
             let idx = type_indices(doc, |t| t.kind == Kind::Interface);
             if idx.is_empty() {
                 return None;
